@@ -93,10 +93,11 @@ pub struct Run {
     pub ticker: Option<Rng>,
     tick_left: u32,
     tick_world: bool,
+    probe_world: bool,
 }
 impl Run {
     pub fn new() -> Self {
-        Run { tr: Trace::new(), world: None, ops: 0, ticker: None, tick_left: 0, tick_world: false }
+        Run { tr: Trace::new(), world: None, ops: 0, ticker: None, tick_left: 0, tick_world: false, probe_world: false }
     }
     pub fn scenario(&mut self, cluster: &str, name: &str) {
         self.tr.lines.push(format!("scenario {cluster} {name}"));
@@ -106,6 +107,27 @@ impl Run {
         // all ticks of one scenario together stay well below the shortest lifetime of a persistent or instance
         // entry in the test host (4096 ledgers), and far above that of a temporary entry (16)
         self.tick_left = 3000;
+        self.probe_world = matches!(cluster, "gw" | "op" | "tk" | "ex" | "its");
+    }
+    /// now and then: call (without authorisation) whatever the contract exports beyond what the model knows
+    fn auto_probe(&mut self, op: &str) {
+        if !self.probe_world || op.starts_with("time") || op.starts_with("tick") || op.starts_with("probe_extra") || op.ends_with(".new") || op.contains(".new ") {
+            return;
+        }
+        let go = match self.ticker.as_mut() {
+            Some(r) => r.below(150) == 0,
+            None => false,
+        };
+        if !go {
+            return;
+        }
+        let pool: Vec<String> = [Addr::c(10), Addr::c(11), Addr::c(20), Addr::c(99)].iter().map(|a| a.tok()).collect();
+        let line = format!("probe_extra {} -", pool.join(","));
+        let toks: Vec<&str> = line.split(' ').collect();
+        let (obs, diag) = self.world.as_mut().expect("no scenario").exec(&toks);
+        self.ops += 1;
+        *self.tr.classes.entry("probe-unknown-entry-points".to_string()).or_insert(0) += 1;
+        self.tr.lines.push(format!("{line} => {obs} ## class=probe-unknown-entry-points e={diag}"));
     }
     fn auto_tick(&mut self, op: &str) {
         if !self.tick_world || self.tick_left == 0 || op.starts_with("time") || op.starts_with("tick") {
@@ -132,6 +154,7 @@ impl Run {
     /// execute and record; returns the observation
     pub fn op(&mut self, op: &str, class: &str) -> String {
         self.auto_tick(op);
+        self.auto_probe(op);
         let toks: Vec<&str> = op.split(' ').collect();
         let (obs, diag) = self.world.as_mut().expect("no scenario").exec(&toks);
         self.ops += 1;
